@@ -365,28 +365,40 @@ def r_var_order(ck: Checker) -> None:
     attached to a compiled value must be registered *after* that value was compiled (self.visit) on every path."""
     from ..dtree import decision_tree
     f = ck.repo.func(PAT, "PatternDefInterpreter.field_spec")
-    reg = ck.repo.func(PAT, "PatternDefInterpreter._check_unique_and_get_capture")
-    adds = [c for c in walk_body(reg.node.body) if isinstance(c, ast.Call) and isinstance(c.func, ast.Attribute) and c.func.attr == "add"]
-    if not adds:
-        raise Unsupported("_check_unique_and_get_capture does not register the name with .add()", reg.node)
-    regname = "_check_unique_and_get_capture"
+    # the registering helper, by role: the private method of the interpreter that adds a name to a set kept on self; when it is a helper of
+    # later origin it is inlined and the registration shows as `self.<set>.add(<name>)` in field_spec itself
+    def is_add(c: ast.AST) -> bool:
+        return isinstance(c, ast.Call) and isinstance(c.func, ast.Attribute) and c.func.attr == "add" and isinstance(c.func.value, ast.Attribute) \
+            and norm(c.func.value.value) == "self" and len(c.args) == 1
+
+    cands = [g for g in ck.repo.functions([ck.repo.mod(PAT)]) if g.cls is not None and g.cls.name == "PatternDefInterpreter"
+             and g.qualname.split(".")[-1] not in ("__init__", "reset", "field_spec") and any(is_add(c) for c in walk_body(g.node.body))]
+    regnames = {g.qualname.split(".")[-1] for g in cands}
+    inline_adds = [c for c in walk_body(f.node.body) if is_add(c)]
+    if not regnames and not inline_adds:
+        raise Unsupported("no registration of capture names found in or below field_spec", f.node)
 
     def pos(n: ast.AST) -> tuple[int, int]:
         return (getattr(n, "lineno", 0), getattr(n, "col_offset", 0))
 
-    def events(stmts: list[ast.stmt], value: ast.expr | None) -> list[tuple[str, ast.Call, str | None]]:
-        ev: list[tuple[str, ast.Call, str | None]] = []
+    def events(stmts: list[ast.stmt], value: ast.expr | None) -> list[tuple[str, ast.AST, str | None]]:
+        """("compile" | "register", node, key): key = the text under which the registered name is known afterwards"""
+        ev: list[tuple[str, ast.AST, str | None]] = []
         seq: list[ast.AST] = list(stmts) + ([ast.Expr(value=value)] if value is not None else [])
-        for st in seq:
+        for k_, st in enumerate(seq):
             tgt = st.targets[0].id if isinstance(st, ast.Assign) and len(st.targets) == 1 and isinstance(st.targets[0], ast.Name) else None
-            calls = sorted((c for c in ast.walk(st) if isinstance(c, ast.Call) and isinstance(c.func, ast.Attribute) and norm(c.func.value) == "self"
-                            and c.func.attr in ("visit", regname, "value", "tree", "sequence")), key=pos)
-            for c in calls:
-                kind = "register" if c.func.attr == regname else "compile"
-                ev.append((kind, c, tgt if isinstance(st, ast.Assign) and st.value is c else None))
+            calls = [c for c in ast.walk(st) if isinstance(c, ast.Call) and isinstance(c.func, ast.Attribute)]
+            # source order inside one statement is evaluation order for call arguments; statements come in execution order
+            for c in sorted(calls, key=pos) if len({pos(c) for c in calls}) == len(calls) else calls:
+                if norm(c.func.value) == "self" and c.func.attr in ("visit", "value", "tree", "sequence"):
+                    ev.append(("compile", c, None))
+                elif norm(c.func.value) == "self" and c.func.attr in regnames:
+                    ev.append(("register", c, tgt if isinstance(st, ast.Assign) and st.value is c else norm(c)))
+                elif is_add(c):
+                    ev.append(("register", c, norm(c.args[0])))
         return ev
 
-    leaves = decision_tree(f.node.body, domain=lambda k: (1, 2, 3) if k.startswith("len(") else (True, False))
+    leaves = decision_tree(f.node.body, domain=lambda k: (1, 2, 3) if k.startswith("len(") else (True, False), resolve=True, max_atoms=14)
     what = "field_spec: a capture attached to a compiled value is registered after the value was compiled (a `$name` inside the value it names is rejected)"
     bad = None
     n_named = 0
@@ -394,26 +406,19 @@ def r_var_order(ck: Checker) -> None:
         if lf.outcome != "return" or lf.value is None:
             continue
         ev = events(lf.stmts, lf.value)
-        comp = [i for i, e in enumerate(ev) if e[0] == "compile"]
+        comp = [i_ for i_, e in enumerate(ev) if e[0] == "compile"]
         if not comp:
             continue
-        # names attached to the result: keyword name=<N> in the returned construction, N bound by a registration
-        rv = lf.value
-        names = [k.value for c in ast.walk(rv) if isinstance(c, ast.Call) for k in c.keywords if k.arg == "name"]
+        names = [k.value for c in ast.walk(lf.value) if isinstance(c, ast.Call) for k in c.keywords if k.arg == "name"]
         for nm in names:
-            if isinstance(nm, ast.Call):
-                idx = [i for i, e in enumerate(ev) if e[1] is nm]
-            elif isinstance(nm, ast.Name):
-                idx = [i for i, e in enumerate(ev) if e[0] == "register" and e[2] == nm.id]
-                idx = idx[-1:]
-            else:
-                raise Unsupported(f"field_spec: capture name given as {norm(nm)[:40]}", nm)
+            key = norm(nm)
+            idx = [i_ for i_, e in enumerate(ev) if e[0] == "register" and (e[2] == key or e[1] is nm)]
             if not idx:
-                raise Unsupported(f"field_spec: binding of the capture name {norm(nm)[:40]} not found on its path", rv)
+                raise Unsupported(f"field_spec: the registration of the capture name {key[:40]} was not found on its path", lf.value)
             n_named += 1
-            if idx[0] < comp[-1]:
-                bad = (f"field_spec: on the path [{', '.join(f'{k}={v}' for k, v in lf.assign.items())}] the capture {norm(nm)} is registered (line {ev[idx[0]][1].lineno}) "
-                       f"before the value it follows is compiled (line {ev[comp[-1]][1].lineno}): `@f=$x -> x` is accepted although x is used before its capture")
+            if idx[-1] < comp[-1]:
+                bad = (f"field_spec: on the path [{', '.join(f'{k}={v}' for k, v in lf.assign.items())}] the capture {key[:40]} is registered (line {getattr(ev[idx[-1]][1], 'lineno', '?')}) "
+                       f"before the value it follows is compiled (line {getattr(ev[comp[-1]][1], 'lineno', '?')}): `@f=$x -> x` is accepted although x is used before its capture")
     if bad:
         ck.violation("R-VAR-ORDER", f, f.node, what, evaluations=len(leaves), construct=bad)
     elif n_named == 0:
